@@ -207,6 +207,31 @@ theorem engCmpScalar_unsafe_scalar_left_one (st : St) (op : String) (tc : List S
   exact ⟨_, _, _, h, rfl, cell_some_cellD (by simpa using hS.has 0 (by omega)),
     cell_some_cellD (by simpa using hT.has 0 (by omega)), hm, hv, hfr⟩
 
+/-- **Tensor-scalar comparison of an operand that needs an iterator, default mode, scalar on either side**: a fresh bool
+    tensor of the operand's shape and data order whose cell at the `k`-th position of its own iterator is
+    `op t[k-th] s` when the tensor is the left operand and `op s t[k-th]` when the scalar is - operand order is kept on
+    the iterator path as on the raw path (`engCmpScalar_scalar_left`). -/
+theorem engCmpScalar_default_iter (st : St) (op : String) (tc : List String) (t : Dense) (sc : ScalarArg) (left : Bool)
+    (htc : t.dt ∈ tc) (hdt : t.dt = sc.dt) (hsrc : sc.src = none) (hit : t.requiresIterator = true)
+    (hnsc : isScalar t.shape = false) (hs1 : sc.win.len = 1) (hmt : t.mask = none) (hl1 : denseLen t.shape ≠ 1)
+    (hor : ∀ i ∈ (freshOf st "b" t.shape t.ap.o.col).offsets, 0 ≤ i ∧ i < (denseLen t.shape : Int))
+    (hot : ∀ j ∈ t.offsets, 0 ≤ j ∧ j < (t.win.len : Int))
+    (hnd : (freshOf st "b" t.shape t.ap.o.col).offsets.Nodup)
+    (hT : InBuf st t.win.buf t.win.off t.win.len) (hS : InBuf st sc.win.buf sc.win.off 1) :
+    ∃ out r s, engCmpScalar st op tc t sc left {} = .ok out ∧ out.ret = .fresh r ∧
+      r.dt = "b" ∧ r.ap.shape = t.shape ∧ r.ap.o.col = t.ap.o.col ∧ r.win.buf = st.heap.size ∧ r.win.off = 0 ∧
+      cell st sc.win.buf sc.win.off = some s ∧ out.st.mheap = st.mheap ∧
+      (∀ (k : Nat) m j, r.offsets[k]? = some m → t.offsets[k]? = some j →
+        ∃ x, cell st t.win.buf (t.win.off + j.toNat) = some x ∧
+          cell out.st r.win.buf m.toNat = some (if left then .app2 op x s else .app2 op s x)) ∧
+      (∀ b' k, b' < st.heap.size → cell out.st b' k = cell st b' k) := by
+  obtain ⟨st', h, hm, hv, hfr⟩ := engCmpScalar_default_iter' st op tc t sc left (by simpa using htc) hdt hsrc hit hnsc hs1
+    hmt hl1 hor hot hnd hT hS
+  refine ⟨_, _, _, h, rfl, rfl, rfl, rfl, rfl, rfl, cell_some_cellD (by simpa using hS.has 0 (by omega)), hm, ?_, hfr⟩
+  intro k m j hk hj
+  have hjr := hot j (List.mem_of_getElem? hj)
+  exact ⟨_, cell_some_cellD (hT.has.at hjr.1 hjr.2), hv k m j hk hj⟩
+
 /-- **Scalar on the left of an operand that needs an iterator, result of the operand's type** (`AsSameType()`; finding
     F31, repaired: the result is walked with its own iterator, not with the operand's). The call returns a fresh tensor
     `r` of `t`'s element type, shape and data order; at the `k`-th offset `m` of `r`'s own iterator it holds the 1/0 form
@@ -302,6 +327,10 @@ def tv : Dense := { ap := { shape := [1, 3], strides := [6, 2], o := { nonContig
 def scv : ScalarArg := { win := ⟨1, 0, 1, 1⟩, dt := "i8" }
 def trv : Dense := { ap := { shape := [1, 3], strides := [3, 1] }, win := ⟨2, 0, 3, 3⟩, dt := "i8" }
 example : tv.offsets = [0, 2, 4] ∧ (freshOf st6 "i8" [1, 3] false).offsets = [0, 1, 2] := by decide
+example := engCmpScalar_default_iter st6 "gt" ordTypes tv scv true (by decide) rfl rfl (by decide) (by decide) rfl rfl
+  (by decide) (by decide) (by decide) (by decide) ⟨_, rfl, by decide⟩ ⟨_, rfl, by decide⟩
+example := engCmpScalar_default_iter st6 "gt" ordTypes tv scv false (by decide) rfl rfl (by decide) (by decide) rfl rfl
+  (by decide) (by decide) (by decide) (by decide) ⟨_, rfl, by decide⟩ ⟨_, rfl, by decide⟩
 example := engCmpScalar_same_scalar_left_iter st6 "gt" ordTypes tv scv (by decide) rfl rfl (by decide) (by decide) rfl rfl
   (by decide) (by decide) (by decide) (by decide) (by decide) ⟨_, rfl, by decide⟩ ⟨_, rfl, by decide⟩
 example := engCmpScalar_same_scalar_left_iter_reuse st6 "gt" ordTypes tv trv scv (by decide) rfl rfl (by decide) (by decide)
